@@ -136,6 +136,7 @@ func opExtractMsg(_ *HState, a Event) Event {
 // mkBlock builds a block of n distinct tiny transactions (no intra-block spends).
 func mkBlock(n int, salt uint32) *wire.MsgBlock {
 	blk := wire.NewMsgBlock(wire.NewBlockHeader(1, &chainhash.Hash{1, 2, 3}, &chainhash.Hash{}, 0x1d00ffff, salt))
+	blk.Header.Timestamp = time.Unix(1600000000+int64(salt%100000), 0) // a function of the arguments (NewBlockHeader takes the clock)
 	for i := 0; i < n; i++ {
 		tx := wire.NewMsgTx(1)
 		prev := chainhash.Hash{byte(salt), byte(salt >> 8), 0xEE, byte(i), byte(i >> 8), byte(i >> 16)}
@@ -169,6 +170,7 @@ func opProof(_ *HState, a Event) Event {
 		// a block with intra-block spends in the given order; the filter watches script items and updates itself
 		txs := buildTxs(desc, gInt(a, "salt"))
 		blk = wire.NewMsgBlock(wire.NewBlockHeader(1, &chainhash.Hash{1, 2, 3}, &chainhash.Hash{}, 0x1d00ffff, uint32(gInt(a, "salt"))))
+		blk.Header.Timestamp = time.Unix(1600000000+int64(gInt(a, "salt")%100000), 0) // not the clock: the call is a function of its arguments
 		for _, x := range gList(a, "order") {
 			blk.AddTransaction(txs[int(x.(float64))])
 		}
@@ -262,9 +264,11 @@ func opProof(_ *HState, a Event) Event {
 			}
 			return f
 		}
-		m2, i2 := merkleblock.NewMerkleBlockWithFilter(bchutil.NewBlock(blk), mkFilter())
+		// the SAME block object serves all builders (a node builds one proof per peer from its block): building a
+		// proof leaves the block as it was
+		m2, i2 := merkleblock.NewMerkleBlockWithFilter(block, mkFilter())
 		e["withfilter"] = msgEvent(m2, i2)
-		m3, i3 := bloom.NewMerkleBlock(bchutil.NewBlock(blk), mkFilter())
+		m3, i3 := bloom.NewMerkleBlock(block, mkFilter())
 		e["bloom"] = msgEvent(m3, i3)
 		// a message that was handed out stays what it was, whatever is built afterwards
 		for k, mm := range []*wire.MsgMerkleBlock{m1, m2, m3} {
@@ -305,6 +309,7 @@ func subsetList(mask int, n int) []int {
 }
 
 func runC11(c *Ctx) {
+	c.Conc = true // proofs are stateless calls: replayed in other orders and from 8 goroutines at once
 	c.Batch = 20
 	r := c.Rng
 	proof := func(n int, m []int) {
